@@ -2,6 +2,7 @@ package rules
 
 import (
 	"fmt"
+	"regexp"
 	"go/token"
 	"go/types"
 	"math/big"
@@ -1048,6 +1049,12 @@ func (lc *linCtx) prove(b *ssa.BasicBlock, extra []cons, g cons) (bool, []cons) 
 	rel := relevant(H, g.e)
 	return entails(H, g), rel
 }
+
+var ssaTempRE = regexp.MustCompile(`t\d+@[\w$]+`)
+
+// stable removes SSA register names from a rendered form so that obligation
+// keys do not change when unrelated edits renumber registers.
+func stable(s string) string { return ssaTempRE.ReplaceAllString(s, "·") }
 
 func consList(cs []cons) string {
 	var s []string
